@@ -12,11 +12,11 @@ Args == { A("-h", "short", <<"h">>, "", FALSE), A("-d", "short", <<"d">>, "", FA
           A("--bdumpx", "bdumpbad", <<>>, "", FALSE),
           A("--bload", "bload", <<>>, "", FALSE), A("--bload=i.bcb", "bload", <<>>, "i.bcb", TRUE),
           A("--", "ddash", <<>>, "", FALSE), A("-", "file", <<>>, "-", FALSE),
-          A("f.bcl", "file", <<>>, "f.bcl", FALSE), A("g.txt", "file", <<>>, "g.txt", FALSE), A("i.bcb", "file", <<>>, "i.bcb", FALSE),
-          A("e.bcl", "file", <<>>, "e.bcl", FALSE), A("r.bcl", "file", <<>>, "r.bcl", FALSE), A("nope.bcl", "file", <<>>, "nope.bcl", FALSE),
+          A("calc.bcl", "file", <<>>, "calc.bcl", FALSE), A("g.txt", "file", <<>>, "g.txt", FALSE), A("i.bcb", "file", <<>>, "i.bcb", FALSE),
+          A("e.bcl", "file", <<>>, "e.bcl", FALSE), A("lib.bcl", "file", <<>>, "lib.bcl", FALSE), A("nope.bcl", "file", <<>>, "nope.bcl", FALSE),
           A("--trace", "long", <<"t">>, "", FALSE), A("--result", "long", <<"r">>, "", FALSE), A("-ts", "cluster", <<"t", "s">>, "", FALSE) }
-HasBclSuffix(f) == f \in {"f.bcl", "e.bcl", "r.bcl", "nope.bcl"}
-Stem(f) == CASE f = "f.bcl" -> "f.bcb" [] f = "e.bcl" -> "e.bcb" [] f = "r.bcl" -> "r.bcb" [] f = "nope.bcl" -> "nope.bcb" [] OTHER -> ""
+HasBclSuffix(f) == f \in {"calc.bcl", "e.bcl", "lib.bcl", "nope.bcl"}
+Stem(f) == CASE f = "calc.bcl" -> "calc.bcb" [] f = "e.bcl" -> "e.bcb" [] f = "lib.bcl" -> "lib.bcb" [] f = "nope.bcl" -> "nope.bcb" [] OTHER -> ""
 Cfg0 == [file |-> "", disasm |-> FALSE, trace |-> FALSE, result |-> FALSE, stats |-> FALSE, bdump |-> FALSE, bload |-> FALSE,
          bdumpFile |-> "", bloadFile |-> ""]
 Out(class, cfg) == [class |-> class, cfg |-> cfg]
@@ -54,8 +54,8 @@ ParseArgs(args) ==
 \* what the run does, given the fixed fixtures: f.bcl, g.txt and stdin hold a program that succeeds, e.bcl one with a syntax error,
 \* r.bcl one that prints and then fails at run time, i.bcb is the dump of f.bcl, nope.bcl does not exist
 IsDumpFile(f) == f = "i.bcb"
-Exists(f) == f \in {"-", "f.bcl", "g.txt", "i.bcb", "e.bcl", "r.bcl"}
-ProgClass(f) == CASE f = "e.bcl" -> "parse-error" [] f = "r.bcl" -> "runtime-error" [] f = "i.bcb" -> "parse-error" [] OTHER -> "ok"
+Exists(f) == f \in {"-", "calc.bcl", "g.txt", "i.bcb", "e.bcl", "lib.bcl"}
+ProgClass(f) == CASE f = "e.bcl" -> "parse-error" [] f = "lib.bcl" -> "runtime-error" [] f = "i.bcb" -> "parse-error" [] OTHER -> "ok"
 RunClass(o) == IF o.class # "run" THEN o.class
                ELSE IF ~Exists(o.cfg.file) THEN "io-error"
                ELSE IF o.cfg.bload THEN (IF IsDumpFile(o.cfg.file) \/ o.cfg.file = "-" THEN "ok" ELSE "load-error")   \* with --bload standard input holds the dump
